@@ -65,10 +65,45 @@ type c12rSpec struct {
 	LimitLoad bool  `json:"limit_loadavg"`
 	// run the worker as uid/gid 65534 (whose only processes are the worker's own) with
 	// RLIMIT_NPROC soft = hard = Nproc: a small `ulimit -u` (0 = leave the limit alone)
-	Nproc int        `json:"ulimit_u,omitempty"`
+	Nproc int `json:"ulimit_u,omitempty"`
+	// build the job manager through the real NewLocalJobManager (setMaxCores / setMaxMem) from
+	// user flags instead of setting the limits (localcores/localmem/localvmem_mb then unused)
+	Flags *c12rFlags `json:"flags,omitempty"`
 	Steps []c12rStep `json:"steps"`
 	Shape string     `json:"shape,omitempty"`
 	Dir   string     `json:"dir"`
+}
+
+type c12rFlags struct {
+	Cores   int  `json:"localcores"`
+	MemGB   int  `json:"localmem"`
+	VmemGB  int  `json:"localvmem"`
+	Cluster bool `json:"cluster_mode"`
+	MPJ     int  `json:"memgb_per_job"`
+	ASGB    int  `json:"ulimit_v_gb,omitempty"` // soft RLIMIT_AS set in the worker (0 = leave)
+}
+
+// what setMaxCores / setMaxMem look at, read with the same functions
+type c12rMachine struct {
+	NumCPU     int   `json:"num_cpu"`
+	Total      int64 `json:"total"`
+	ActualFree int64 `json:"actual_free"`
+	CgMem      int64 `json:"cgroup_limit"`
+	CgUse      int64 `json:"cgroup_usage"`
+	VmemLimit  int64 `json:"check_max_vmem"`
+}
+
+func c12rObserveMachine() c12rMachine {
+	var mi core.MemInfo
+	mi.Get()
+	cg, _, use := util.GetCgroupMemoryLimit()
+	return c12rMachine{runtime.NumCPU(), mi.Total, mi.ActualFree, cg, use, int64(core.CheckMaxVmem(1 << 30))}
+}
+
+type c12rCfgOut struct {
+	Before, After c12rMachine
+	Sems          [4]c12rSem
+	Err           string
 }
 
 type c12rSem struct {
@@ -180,8 +215,37 @@ func c12RefreshWorker(c *Ctx) {
 			fatal("setuid: %v", err)
 		}
 	}
-	ljm := core.VerifNewProdLocalJobManager(spec.MaxCores, spec.MaxMemGB, spec.MaxVmemMB,
-		&core.JobManagerSettings{ThreadsPerJob: 1, MemGBPerJob: 1, ExtraVmemGB: spec.EV}, spec.LimitLoad)
+	var ljm *core.LocalJobManager
+	if fl := spec.Flags; fl != nil {
+		if fl.ASGB > 0 {
+			const rlimitAS = 9
+			var lim syscall.Rlimit
+			if syscall.Getrlimit(rlimitAS, &lim) == nil {
+				lim.Cur = uint64(fl.ASGB) << 30
+				syscall.Setrlimit(rlimitAS, &lim)
+			}
+		}
+		var co c12rCfgOut
+		co.Before = c12rObserveMachine()
+		var err error
+		ljm, err = core.NewLocalJobManager(fl.Cores, fl.MemGB, fl.VmemGB, false, spec.LimitLoad, fl.Cluster,
+			&core.JobManagerJson{JobSettings: &core.JobManagerSettings{ThreadsPerJob: 1, MemGBPerJob: fl.MPJ, ExtraVmemGB: spec.EV}})
+		co.After = c12rObserveMachine()
+		if err != nil {
+			co.Err = err.Error()
+		} else {
+			co.Sems = c12rSnapshot(ljm.VerifSemaphores())
+		}
+		j, _ := json.Marshal(co)
+		fmt.Printf("C12RCFG %s\n", j)
+		if err != nil {
+			os.Stdout.Sync()
+			os.Exit(0)
+		}
+	} else {
+		ljm = core.VerifNewProdLocalJobManager(spec.MaxCores, spec.MaxMemGB, spec.MaxVmemMB,
+			&core.JobManagerSettings{ThreadsPerJob: 1, MemGBPerJob: 1, ExtraVmemGB: spec.EV}, spec.LimitLoad)
+	}
 	sems := ljm.VerifSemaphores()
 	logPath := filepath.Join(spec.Dir, "log")
 	gates := map[int]*os.File{}
@@ -450,6 +514,7 @@ func c12rGen(c *Ctx, maxGB int) c12rSpec {
 }
 
 var c12rSeq int
+var c12rLastCfg *c12rCfgOut // the C12RCFG line of the last worker run
 
 // c12rRun executes the scenario in a fresh worker process.
 func c12rRun(c *Ctx, sp c12rSpec) (outs []c12rOut, cmdline string, err error) {
@@ -486,8 +551,16 @@ func c12rRun(c *Ctx, sp c12rSpec) (outs []c12rOut, cmdline string, err error) {
 	syscall.Kill(-cmd.Process.Pid, syscall.SIGKILL) // whatever is left of its process group
 	sc := bufio.NewScanner(&stdout)
 	sc.Buffer(make([]byte, 1<<20), 1<<24)
+	c12rLastCfg = nil
 	for sc.Scan() {
 		l := sc.Text()
+		if strings.HasPrefix(l, "C12RCFG ") {
+			var co c12rCfgOut
+			if json.Unmarshal([]byte(l[8:]), &co) == nil {
+				c12rLastCfg = &co
+			}
+			continue
+		}
 		if !strings.HasPrefix(l, "C12R ") {
 			continue
 		}
@@ -897,6 +970,11 @@ func runC12Refresh(c *Ctx) {
 		}
 	}
 	c12rNproc(c)
+	if c.Thorough {
+		c12rSetMax(c, 60)
+	} else {
+		c12rSetMax(c, 8)
+	}
 }
 
 // c12rNproc: a small `ulimit -u`.  The worker runs as uid 65534 (so that "the user's
@@ -1000,4 +1078,120 @@ func c12rReport(c *Ctx, sp c12rSpec, v *c12rVerdict, cmdline string) {
 		viol.Expect = "Props.C12.refresh_never_parks_a_fitting_job / limit_job_granted_after_refresh: with the OS offering the whole limit and the usage below mrp within the reservations, whoever fits maxSize - Reserved is granted"
 	}
 	r.violate(viol)
+}
+
+// c12rSetMax: where the limits come from.  The worker builds its job manager through the real
+// NewLocalJobManager (setMaxCores, setMaxMem, setupSemaphores) from PRNG user flags — unset,
+// small, equal, vmem below memory, larger than the machine, cluster mode, an address-space
+// rlimit — and reports the semaphores it got; the model (Martian.SemaphoreConfig.setMaxModel,
+// driver op C12.setmax) is asked with the machine as observed before and after the call by the
+// same functions: exact where both answers agree, else the limits must lie between them.
+func c12rSetMax(c *Ctx, n int) {
+	r := c.Res
+	rng := c.Rng
+	for i := 0; i < n; i++ {
+		fl := &c12rFlags{MPJ: 1 + rng.Intn(8), Cluster: rng.Intn(3) == 0}
+		fl.Cores = []int{0, 0, 1, 2, 3, 4, 64}[rng.Intn(7)]
+		fl.MemGB = []int{0, 0, 1, 2, 3, 4, 1000}[rng.Intn(7)]
+		base := fl.MemGB
+		if base == 0 {
+			base = 4
+		}
+		fl.VmemGB = []int{0, 0, base, base, base - 1, base + 2, 1000}[rng.Intn(7)]
+		if rng.Intn(4) == 0 {
+			fl.ASGB = 16 + 16*rng.Intn(3)
+		}
+		witness := ""
+		switch i {
+		case 0:
+			fl = &c12rFlags{Cores: 2, MemGB: 4, VmemGB: 4, MPJ: 1}
+			witness = "same"
+		case 1:
+			fl = &c12rFlags{Cores: 2, MemGB: 4, VmemGB: 2, MPJ: 1}
+			witness = "below"
+		}
+		sp := c12rSpec{Flags: fl, EV: 0, Shape: "setmax"}
+		if witness != "" {
+			sp.Steps = []c12rStep{{Kind: "enqueue", Job: 0, T64: 64, MemMb: 4096, What: "exactly the memory limit"}}
+		} else {
+			sp.Steps = []c12rStep{{Kind: "refresh"}}
+		}
+		outs, cmdline, err := c12rRun(c, sp)
+		co := c12rLastCfg
+		if co == nil || co.Err != "" || err != nil {
+			msg := ""
+			if co != nil {
+				msg = co.Err
+			}
+			r.hist("setmax_scenarios_not_judged")
+			r.note("NewLocalJobManager scenario %+v not judged: %s %v", *fl, msg, err)
+			continue
+		}
+		ask := func(m c12rMachine) string {
+			cl := 0
+			if fl.Cluster {
+				cl = 1
+			}
+			return c.Drv.Ask("C12.setmax", fmt.Sprintf("%d,%d,%d,%d", fl.Cores, fl.MemGB, fl.VmemGB, cl),
+				fmt.Sprintf("%d,%d,%d,%d,%d,%d,0,1,%d", m.NumCPU, m.Total, m.ActualFree, m.CgMem, m.CgUse, m.VmemLimit, fl.MPJ))
+		}
+		m1, m2 := ask(co.Before), ask(co.After)
+		real := fmt.Sprintf("%d,%d,%d", co.Sems[0].Max/100, co.Sems[1].Max/1024, co.Sems[2].Max)
+		if co.Sems[0].Max%100 != 0 || co.Sems[1].Max%1024 != 0 {
+			real = fmt.Sprintf("?%d,%d,%d", co.Sems[0].Max, co.Sems[1].Max, co.Sems[2].Max)
+		}
+		r.count(fmt.Sprintf("setmax|%+v", *fl), fl.MemGB == 0 || fl.VmemGB != 0)
+		r.hist("setmax_scenarios")
+		if co.Before.VmemLimit > 0 {
+			r.hist("setmax_scenarios_with_an_address_space_rlimit")
+		}
+		if fl.MemGB == 0 {
+			r.hist("setmax_scenarios_localmem_unset")
+		}
+		if fl.Cluster {
+			r.hist("setmax_scenarios_cluster_mode")
+		}
+		ok := real == m1 || real == m2
+		if m1 == m2 {
+			r.hist("setmax_comparisons_exact")
+		} else {
+			r.hist("setmax_comparisons_bracketed")
+			var a, b, x [3]int64
+			fmt.Sscanf(strings.ReplaceAll(m1, ",", " "), "%d %d %d", &a[0], &a[1], &a[2])
+			fmt.Sscanf(strings.ReplaceAll(m2, ",", " "), "%d %d %d", &b[0], &b[1], &b[2])
+			fmt.Sscanf(strings.ReplaceAll(real, ",", " "), "%d %d %d", &x[0], &x[1], &x[2])
+			ok = true
+			for k := range x {
+				lo, hi := a[k], b[k]
+				if lo > hi {
+					lo, hi = hi, lo
+				}
+				if x[k] < lo || x[k] > hi {
+					ok = false
+				}
+			}
+		}
+		if !ok {
+			r.violate(Violation{Kind: "correspondence", Key: "C12:setmax:model-mismatch",
+				What:  fmt.Sprintf("NewLocalJobManager(%+v) produced maxCores,maxMemGB,maxVmemMB = %s; the model says %s for the machine as observed before the call and %s after", *fl, real, m1, m2),
+				Input: map[string]interface{}{"worker_command": cmdline, "flags": fl, "machine_before": co.Before, "machine_after": co.After},
+				Impl:  co.Sems, Model: []string{m1, m2},
+				Broken: "correspondence C12.setmax (Martian.SemaphoreConfig.setMaxModel vs NewLocalJobManager / setMaxCores / setMaxMem)"})
+			continue
+		}
+		switch witness {
+		case "same":
+			if len(outs) == 1 && outs[0].Outcome == "started" && co.Sems[2].Max == co.Sems[1].Max {
+				r.note("--localvmem = --localmem through the real NewLocalJobManager(--localmem 4 --localvmem 4): maxVmemMB = %d = maxMemGB*1024 (nothing of mrp's own address space is on record when setMaxMem runs: same_localmem_localvmem_at_construction), and a job asking for the memory limit starts", co.Sems[2].Max)
+			} else {
+				r.note("same-value witness: unexpected %+v / %+v", co.Sems, outs)
+			}
+		case "below":
+			if len(outs) == 1 && outs[0].Outcome == "refused" && strings.Contains(outs[0].Err, "address space") {
+				r.note("known finding F18 (C12:local:vmem-floor-above-limit) replays through the real NewLocalJobManager(--localmem 4 --localvmem 2): maxVmemMB = %d < maxMemGB*1024 = %d, a job asking for the memory limit is refused: %s", co.Sems[2].Max, co.Sems[1].Max, strings.TrimSpace(outs[0].Err))
+			} else {
+				r.note("F18 through NewLocalJobManager did not replay: %+v", outs)
+			}
+		}
+	}
 }
